@@ -36,7 +36,7 @@ def corpus(work, tier, seed):
         ship += [z for z in tzgen.shipped_zones(V.REPO) if z[0] in must and z not in ship]
         ngen = 100
     else:
-        ngen = 1500
+        ngen = 400
     gen = tzgen.write_corpus(os.path.join(work, "gen"), seed, ngen)
     zl = os.path.join(work, "zones.txt")
     with open(zl, "w") as f:
